@@ -202,6 +202,7 @@ type meter struct {
 	stop   chan struct{} // closed when the watchdog gives up on the case
 	notes  []string
 	tags   []string
+	failFP, failWhat string
 }
 
 func (m *meter) begin() { m.a0 = totalAlloc(); m.began = true }
@@ -214,6 +215,11 @@ func (m *meter) end(input int) {
 }
 func (m *meter) tag(s string) { m.tags = append(m.tags, s) }
 
+// fail: the case itself has established a violation (a hang it detected by its own criterion).
+func (m *meter) fail(fp, what string) { m.failFP, m.failWhat = fp, what }
+
+func stackAll(buf []byte) int { return runtime.Stack(buf, true) }
+
 type caseResult struct {
 	Name    string
 	Outcome string
@@ -225,6 +231,8 @@ type caseResult struct {
 	Busy    bool   // with Stuck: the process kept computing
 	CPUus   int64
 	Restore string
+	FailFP, FailWhat string
+	Notes   []string
 	Aborted int // the case was cut off after the node had sent this many bytes (far beyond the yardstick)
 }
 
@@ -393,6 +401,9 @@ loop:
 	}
 	res.Input = m.input
 	res.Items = m.items
+	if !abandoned {
+		res.FailFP, res.FailWhat, res.Notes = m.failFP, m.failWhat, m.notes
+	}
 	if res.Panic != nil {
 		res.Outcome = "PANIC:" + res.Panic.Func
 	} else if len(m.tags) > 0 {
@@ -589,7 +600,7 @@ func runChunk(f *Family, cmd command) *reply {
 		cpuUs += r.CPUus
 		rep.InputBytes += int64(r.Input)
 		prefix := stage
-		if stage == "seq" || stage == "pipe" {
+		if stage == "seq" || stage == "pipe" || stage == "srv" {
 			prefix = f.Name
 		}
 		key := prefix + "/" + r.Outcome
@@ -600,6 +611,16 @@ func runChunk(f *Family, cmd command) *reply {
 				kind = "computing"
 			}
 			rep.Stuck = &violation{FP: "C15/stuck/" + stage + "/" + r.Stuck, What: fmt.Sprintf("case %s did not finish (%s): %s", c.Name, kind, r.Stuck), Case: c.Name, Fam: f.Name, Kind: "stuck", Detail: map[string]interface{}{"busy": r.Busy}}
+			rep.Next = i + 1
+			rep.Exit = true
+			stopped = true
+			return
+		}
+		rep.Notes = append(rep.Notes, r.Notes...)
+		if r.FailFP != "" {
+			rep.Violations = appendV(rep.Violations, violation{FP: r.FailFP, What: r.FailWhat, Case: c.Name, Fam: f.Name, Kind: "hang"})
+			// something of that case is still spinning or blocked: this worker ends here
+			rep.Outcomes[key]++
 			rep.Next = i + 1
 			rep.Exit = true
 			stopped = true
